@@ -29,8 +29,8 @@ if [ "$applied" != FAILED ]; then
     cp "$DEMO" "$WT/$dir/zz_seed_demo_test.go"
     names=$(grep -o '^func Test[A-Za-z0-9_]*' "$DEMO" | sed 's/func //' | paste -sd'|')
     if go test -vet=off -count=1 -run "^($names)\$" ./$dir >/tmp/vs-with-$PID-$AB.log 2>&1; then with=PASS; else with=FAIL; fi
-    git stash -q -- . ':!*/zz_seed_demo_test.go' ':!zz_seed_demo_test.go' 2>/dev/null || git checkout -q -- .
-    git diff --quiet || git checkout -q -- .
+    # undo the change only (the demonstration is untracked and stays); no git stash: the stash is shared by all worktrees
+    git checkout -q -- .
     if go test -vet=off -count=1 -run "^($names)\$" ./$dir >/tmp/vs-without-$PID-$AB.log 2>&1; then without=PASS; else without=FAIL; fi
   fi
 fi
